@@ -833,7 +833,10 @@ fn c07(tier: &str, known: &[crate::runner::Known]) -> PureResult {
     let stacks: Vec<usize> = vec![0, 2048, 1024, 512, 256, 128, 64];
     let mut cases = vec![];
     for shape in 0..crate::c07::SHAPES.len() {
-        for &n in ns.iter() {
+        // the fan-out shapes also at a width at which one traversal of the participant registry
+        // meets a few hundred thousand retired participants (finding #11)
+        let fan_ns: Vec<usize> = if quick { vec![300_000] } else { vec![300_000, 500_000] };
+        for &n in ns.iter().chain(fan_ns.iter().filter(|_| shape >= 5)) {
             for &st in stacks.iter() {
                 for ctx in 0..2 {
                     cases.push((shape, n, st, ctx));
